@@ -4,7 +4,7 @@
    orders and write orders (re-exported here). *)
 From Coq Require Import List Arith Bool Permutation.
 From Coq Require Import ZArith.
-From Replicat Require Model.LimiterLock Proofs.LimiterLockProofs.
+From Replicat Require Model.LimiterLock Proofs.LimiterLockProofs Model.AuthGate Proofs.AuthGateProofs.
 From Replicat Require Import Lib.ListX Model.Sched Model.Stream Proofs.SchedProofs Proofs.SchedTie Proofs.RoundTrip Gen.SchedFacts.
 Import ListNotations.
 
@@ -99,6 +99,22 @@ Print Assumptions C09_limiter_sleep_lengths.
 Print Assumptions C09_limiter_never_sleeps_negative.
 Print Assumptions C09_limiter_unlocked_refuted.
 Print Assumptions C09_limiter_threshold_nonneg.
+
+(* 7. "no spurious errors": the first authentication of a thread backend (requires_auth).  For any number of transfer threads arriving
+   in any order, every transfer is issued with an authorisation in place; the boolean is the order the translator finds in the working
+   tree (lock attribute published after authenticate() has returned) *)
+Theorem C09_first_authentication_gate : forall tr g,
+  AuthGate.areach (negb auth_lock_published_after_authenticate) AuthGate.ginit tr g ->
+  Forall (fun v => match v with AuthGate.Call b => b = true end) tr.
+Proof. exact AuthGateProofs.publish_after_auth_safe. Qed.
+Theorem C09_first_authentication_published_early_refuted :
+  exists tr g, AuthGate.areach true AuthGate.ginit tr g /\ In (AuthGate.Call false) tr.
+Proof. exact AuthGateProofs.publish_before_auth_refuted. Qed.
+Example C09_first_authentication_concrete :
+  exists tr g, AuthGate.areach false AuthGate.ginit tr g /\ tr = [AuthGate.Call true; AuthGate.Call true; AuthGate.Call true].
+Proof. exact AuthGateProofs.gate_concrete. Qed.
+Print Assumptions C09_first_authentication_gate.
+Print Assumptions C09_first_authentication_published_early_refuted.
 
 Theorem C09_source_facts : all_sched_facts = true.
 Proof. exact sched_facts_hold. Qed.
